@@ -24,7 +24,7 @@ func vpUnrelatedWork() string {
 	for _, f := range []string{"$z = 1 + 2, [$z, abs(-1)]", "1 +", "q.r.s == null ? 'a' : left('xyz', 1)", "[roundBank(3.5), ceil(1.2), 7 / 2, 7 % 2, round(2.5)]",
 		"regexp('abc', 'b+') ? regexp('x', '(') : 0", "toString(1.50) + lpad('a', '0', 3) + join(['a', 'b'], ',')",
 		"[toInt(7.25), -(2.5), abs(-9.75), round(0.125), ceil(7.25)]",
-		"(1 2", "ok1 + 1", "1 + ) 2", "[ok2]", "f(a, (b c", "ok3", "[1 2", "1 2", "'open", "ok4 . k"} {
+		"\u0662", "1 + \u0301x", "a\u0661 + 1", "$e\u0301 = 2", "(1 2", "ok1 + 1", "1 + ) 2", "[ok2]", "f(a, (b c", "ok3", "[1 2", "1 2", "'open", "ok4 . k"} {
 		code, err := ParseSourceCode([]byte(f))
 		if err != nil {
 			digest += "E:" + err.Error() + ";"
@@ -76,12 +76,21 @@ func vpErrText2(err error) string {
 func VP_C08_parse() {
 	L := vpParam("L")
 	text := vpBytes("t", L)
-	base := vpUnrelatedWork() // in the fresh process state
+	// two orders: either the unrelated work runs first in the fresh state (its digest must
+	// not change after the parse), or the parse runs first in the fresh state (its result
+	// must not change after the unrelated work)
+	workFirst := vpBool("workFirst")
+	base := ""
+	if workFirst {
+		base = vpUnrelatedWork()
+	}
 	vpFreezeGlobals()
 	a, errA := ParseSourceCode(text)
 	mid := vpUnrelatedWork()
 	b, errB := ParseSourceCode(append([]byte(nil), text...))
-	vpAssert("C08/parse/unrelated-work-unaffected", base == mid)
+	if workFirst {
+		vpAssert("C08/parse/unrelated-work-unaffected", base == mid)
+	}
 	vpAssert("C08/parse/same-verdict", (errA == nil) == (errB == nil))
 	if errA != nil && errB != nil {
 		vpAssert("C08/parse/same-error", vpErrText2(errA) == vpErrText2(errB))
@@ -149,7 +158,11 @@ var vpC08Pool = []string{
 // with the unrelated work (which itself rounds, divides and compiles patterns)
 // in between, give the same value or the same error every time.
 func VP_C08_pool() {
-	base := vpUnrelatedWork() // in the fresh process state
+	workFirst := vpBool("workFirst")
+	base := ""
+	if workFirst {
+		base = vpUnrelatedWork() // in the fresh process state
+	}
 	text := vpC08Pool[vpChoice("f", len(vpC08Pool))]
 	s := vpSymString("s", 1)
 	code, err := ParseSourceCode([]byte(text))
@@ -168,7 +181,7 @@ func VP_C08_pool() {
 	w1 := vpUnrelatedWork()
 	v2, e2 := eval()
 	w2 := vpUnrelatedWork()
-	vpAssert("C08/pool/unrelated-work-same-every-time", w1 == w2 && w1 == base)
+	vpAssert("C08/pool/unrelated-work-same-every-time", w1 == w2 && (w1 == base || !workFirst))
 	v3, e3 := eval()
 	vpObserve("pool", text, e1 != "", e2 != "", e3 != "")
 	vpAssert("C08/pool/same-verdict-every-time", (e1 == "") == (e2 == "") && (e2 == "") == (e3 == ""))
